@@ -33,7 +33,7 @@ def plan(tier, seed):
     ob = "after every step every committed container and manifest sidecar is byte-identical; every file set that existed after a commit still opens and shows that state"
     for c in ("ih5", "mf"):
         for first in range(21):
-            parts.append(Part(H, "frames", {"cls": c, "k": k, "first": first}, 900 if tier == "quick" else 6000, 120, ob, weight=2))
+            parts.append(Part(H, "frames", {"cls": c, "k": (k if c == "ih5" else 3), "first": first}, 900 if tier == "quick" else 6000, 120, ob, weight=2))
     keep = {"setitem", "delitem", "attr_set", "attr_del", "create_group", "create_dataset", "copy", "move", "copy_into_patch", "ds_write", "require_group"}
     for p in C1.w_parts("quick"):
         if p.sel.get("op") in keep and p.sel.get("n") == 2 and p.sel.get("p") in ("a", "a/x", "b/c"):
